@@ -18,7 +18,7 @@ MAP_OPS = ['set', 'del', 'insert', 'setdefault', 'pop', 'popd', 'popitem', 'upda
 SET_OPS = ['add', 'insert', 'remove', 'discard', 'pop', 'update', 'clear', 'ior', 'iand', 'isub',
            'ixor', 'isdisjoint', 'in', 'has_key', 'len', 'bool', 'list', 'keys', 'idx']
 MUTATORS = {'set', 'del', 'insert', 'setdefault', 'pop', 'popd', 'popitem', 'update', 'clear',
-            'add', 'remove', 'discard', 'ior', 'iand', 'isub', 'ixor'}
+            'add', 'remove', 'discard', 'ior', 'iand', 'isub', 'ixor', 'bad'}
 SINGLE_KEY = {'set', 'del', 'insert', 'setdefault', 'pop', 'popd', 'add', 'remove', 'discard',
               'get', 'getd', 'getitem', 'in', 'has_key'}
 
@@ -26,6 +26,26 @@ SINGLE_KEY = {'set', 'del', 'insert', 'setdefault', 'pop', 'popd', 'add', 'remov
 # ----------------------------------------------------------------------------- strategies
 
 _OPS_CACHE = {}
+
+
+class _Plain(object):
+    """an object with default comparison: not usable as an object key"""
+
+
+def bad_data(code, role):
+    """data that the family's key / value type cannot represent (writes must raise TypeError and change nothing)"""
+    if code in F.BOUNDS:
+        lo, hi = F.BOUNDS[code]
+        return ['x', None, 1.5, lo - 1, hi + 1, 2 ** 70, -2 ** 70, b'ab', (1,)]
+    if code == 'F':
+        return ['x', None, 1e40, -1e40, b'ab', (1.0,), 2 ** 200]
+    if code == 'f':
+        return [b'abc', b'a', b'', 'ab', 5, None]
+    if code == 's':
+        return [b'abc', b'abcdefg', b'', 'abcdef', 5, None]
+    if role == 'key':
+        return [_Plain()]
+    return []
 
 
 def key_arg(fam, ktype):
@@ -56,6 +76,8 @@ def op_strategy(fam, kind, ktype='int', readonly_weight=1):
             muts.append(op('insert', K, V))
         reads = [op('get', K), op('getd', K, V), op('getitem', K), op('in', K), op('has_key', K),
                  op('len'), op('bool'), op('list'), op('keys'), op('values'), op('items')]
+        hows = ['set', 'setdefault', 'update'] + (['insert'] if kind == 'BTree' else [])
+        muts.append(op('bad', st.sampled_from(['key', 'value']), st.sampled_from(hows), st.integers(0, 8), K, V))
         weights = muts * 3 + [op('clear')] + reads * readonly_weight
     else:
         ks = st.lists(KT, max_size=8)
@@ -65,6 +87,8 @@ def op_strategy(fam, kind, ktype='int', readonly_weight=1):
                 op('remove', K), op('discard', K), op('discard', K), op('pop'),
                 op('update', ks, forms), op('ior', ks, forms), op('iand', ks, formself),
                 op('isub', ks, formself), op('ixor', ks, formself)]
+        muts.append(op('bad', 'key', st.sampled_from(['add', 'update'] + (['insert'] if kind == 'TreeSet' else [])),
+                       st.integers(0, 8), K, st.none()))
         reads = [op('isdisjoint', ks, forms), op('in', K), op('has_key', K), op('len'), op('bool'),
                  op('list'), op('keys')]
         if kind == 'Set':
@@ -450,6 +474,26 @@ class Live:
             call = lambda: t.isdisjoint(o)
             want = ('ok', not (set(m) & ks))
             mode = 'truth'
+            upd = None
+        elif name == 'bad':
+            # a write with a key / value the family cannot represent: TypeError, nothing changes (no model update)
+            _, role, how, zi, karg, vtok = op
+            code = self.fam[0] if role == 'key' else self.fam[1]
+            pool = bad_data(code, role)
+            if not pool:
+                call = lambda: None
+                want = ('ok', None)
+            else:
+                z = pool[zi % len(pool)]
+                gk = z if role == 'key' else self.K(karg)
+                if self.is_map:
+                    gv = z if role == 'value' else self.V(vtok)
+                    call = {'set': lambda: t.__setitem__(gk, gv), 'setdefault': lambda: t.setdefault(gk, gv),
+                            'insert': lambda: t.insert(gk, gv), 'update': lambda: t.update([(gk, gv)])}[how]
+                else:
+                    call = {'add': lambda: t.add(gk), 'insert': lambda: t.insert(gk),
+                            'update': lambda: t.update([gk])}[how]
+                want = ('exc', TypeError)
             upd = None
         elif name == 'idx':
             i = op[1]
